@@ -21,6 +21,7 @@ from typing import Dict, List, Optional, Set, Tuple
 
 from sa.model import AnalysisError, Function, Module, Repo, calls_in, const_str, dotted, norm, own_nodes, parent
 from sa.paths import Provenance
+from sa.match import Locals
 from sa.report import Report
 from sa.templates import CODE, COMMENT, DOCSTRING, STRING, HOLE, LexState, Template, hole_contexts, lex_advance, template_of
 
@@ -76,13 +77,23 @@ def compute_helper_escapes(repo: Repo) -> None:
     HELPER_ESCAPES.clear()
     for mod in repo.modules.values():
         for q, fn in mod.functions.items():
-            if "escape_docstring" in fn.name:
-                ft = FnTaint(fn)
-                esc: Optional[Set[str]] = None
-                for r in [n for n in own_nodes(fn.node) if isinstance(n, ast.Return) and n.value is not None]:
-                    got = ft.escapes(r.value)
-                    esc = got if esc is None else (esc & got)
-                HELPER_ESCAPES[fn.name] = esc or set()
+            # an escaping helper is recognised by what it does, not by its name: a small function whose every return is its
+            # (first) parameter passed through escaping replace() steps
+            if "<locals>" in q or fn.cls is not None or not fn.params or len(fn.node.body) > 8:  # type: ignore[attr-defined]
+                continue
+            rets = [n for n in own_nodes(fn.node) if isinstance(n, ast.Return) and n.value is not None]
+            HL = Locals(fn.node)
+            rvs = [HL.inline(r.value, stop=tuple(HL.params)) for r in rets]
+            if not rets or not all(any(isinstance(x, ast.Call) and isinstance(x.func, ast.Attribute) and x.func.attr == "replace" for x in ast.walk(rv))
+                                   and any(isinstance(x, ast.Name) and x.id == fn.params[0] for x in ast.walk(rv)) for rv in rvs):
+                continue
+            ft = FnTaint(fn)
+            esc: Optional[Set[str]] = None
+            for r in rets:
+                got = ft.escapes(r.value)
+                esc = got if esc is None else (esc & got)
+            if esc:
+                HELPER_ESCAPES[fn.name] = esc
 
 
 def compute_tainted_params(repo: Repo, mods: List[str]) -> None:
@@ -126,6 +137,70 @@ def compute_tainted_params(repo: Repo, mods: List[str]) -> None:
             break
 
 
+TUPLE_TAINT: Dict[Tuple[str, str], Dict[int, bool]] = {}
+
+
+def _record_source(e: ast.AST, L: "Locals", depth: int = 0) -> Optional[ast.AST]:
+    """Chase element-preserving wrappers (`[f for f in xs if ...]`, sorted(xs), list(xs), a temporary) down to the expression the
+    records come from."""
+    while depth < 8:
+        depth += 1
+        if isinstance(e, ast.Name):
+            v = L.single(e.id)
+            if v is None:
+                return e
+            e = v
+        elif isinstance(e, (ast.ListComp, ast.GeneratorExp)) and len(e.generators) == 1 and isinstance(e.elt, ast.Name) \
+                and isinstance(e.generators[0].target, ast.Name) and e.elt.id == e.generators[0].target.id:
+            e = e.generators[0].iter
+        elif isinstance(e, ast.Call) and dotted(e.func) in ("sorted", "list", "tuple", "reversed", "filter") and e.args:
+            e = e.args[-1] if dotted(e.func) == "filter" else e.args[0]
+        else:
+            return e
+    return e
+
+
+def compute_tuple_taints(repo: Repo, mods: List[str]) -> None:
+    """Inter-procedural step for *records*: when a list of tuples built in one function is handed to another as an argument, the
+    taint of each tuple position is computed where the tuples are built (not guessed from the names the consumer unpacks into)."""
+    TUPLE_TAINT.clear()
+    by_name: Dict[str, List[Function]] = {}
+    fns: List[Function] = []
+    for mn in mods:
+        for fn in repo.modules[mn].functions.values():
+            if "<locals>" in fn.qualname:
+                continue
+            fns.append(fn)
+            by_name.setdefault(fn.name, []).append(fn)
+    for fn in fns:
+        L = Locals(fn.node)
+        ft: Optional[FnTaint] = None
+        built: Dict[str, List[ast.Tuple]] = {}
+        for n in own_nodes(fn.node):
+            if isinstance(n, ast.Call) and isinstance(n.func, ast.Attribute) and n.func.attr == "append" and isinstance(n.func.value, ast.Name) \
+                    and n.args and isinstance(n.args[0], ast.Tuple):
+                built.setdefault(n.func.value.id, []).append(n.args[0])
+        if not built:
+            continue
+        for c in calls_in(fn.node):
+            name = c.func.attr if isinstance(c.func, ast.Attribute) else (c.func.id if isinstance(c.func, ast.Name) else None)
+            targets = by_name.get(name or "", [])
+            if not targets or len(targets) > 3:
+                continue
+            for tgt in targets:
+                params = [p for p in tgt.params if p not in ("self", "cls")]
+                pairs = list(zip(params, c.args)) + [(k.arg, k.value) for k in c.keywords if k.arg in params]
+                for pname, arg in pairs:
+                    lists = [x.id for x in ast.walk(arg) if isinstance(x, ast.Name) and x.id in built]
+                    for lv in lists:
+                        ft = ft or FnTaint(fn)
+                        slot = TUPLE_TAINT.setdefault((tgt.fq, pname), {})
+                        for t in built[lv]:
+                            for i, el in enumerate(t.elts):
+                                tainted = any(k == "taint" for k, _ in ft.origins(el, STRING))
+                                slot[i] = slot.get(i, False) or tainted
+
+
 class FnTaint:
     """Flow-insensitive, function-local origin tracing of an expression."""
 
@@ -156,7 +231,10 @@ class FnTaint:
                 return [("clean", f"{name}() builds a complete literal")] if ctx in (CODE, STRING) else self._args(e, ctx, depth, seen)
             if last in SANITIZERS_CODE or last.startswith("sanitize_"):
                 return [("clean", f"{last}()")]
-            if "escape_docstring" in last and ctx == DOCSTRING:
+            if last.startswith(("format_", "render_", "_build_", "_get_cattrs", "_generate_untyped", "_generate_typed", "_get_field_default", "_get_extraction")):
+                # a code-returning helper: what it returns is judged at its own emit (return) sites, where its holes are checked
+                return [("clean", f"{last}() returns generated code (checked at its own templates)")]
+            if last in HELPER_ESCAPES and {"backslash", "triple-quote"} <= HELPER_ESCAPES[last] and ctx == DOCSTRING:
                 return [("clean", f"{last}()")]
             if last in ("replace", "strip", "lstrip", "rstrip", "lower", "upper", "title", "capitalize", "split", "join", "format", "get",
                         "splitlines", "rsplit", "removeprefix", "removesuffix", "expandtabs", "ljust", "rjust", "center", "encode", "decode"):
@@ -202,6 +280,17 @@ class FnTaint:
                 return []
             defs = self.prov.defs.get(e.id, [])
             out: List[Tuple[str, str]] = []
+            pos = self._record_position(e.id)
+            if pos is not None:
+                pname, idx = pos
+                slot = TUPLE_TAINT.get((self.fn.fq, pname))
+                if slot is not None and idx in slot:
+                    # decided where the records are built (inter-procedural), not by the name they are unpacked into
+                    # Only the *clean* verdict overrides the naming convention below: a position that can carry spec text in some
+                    # producer branch may still be safe here through a correlated guard (e.g. `base_type == "str"`), which this
+                    # analysis does not follow - those cases keep the convention-based judgement.
+                    if not slot[idx]:
+                        return [("clean", f"component {idx} of `{pname}` (built from sanitised values at every producer)")]
             if e.id in self.prov.tuple_bound and e.id not in TAINT_NAMES and not self._explicit_taint_def(e.id):
                 # a component unpacked from a record: records mix raw spec text with derived identifiers; the
                 # component's role is given by its name (tag vs class_name/module_name, field_desc vs name/type_hint)
@@ -240,6 +329,17 @@ class FnTaint:
         if isinstance(e, ast.Starred):
             return self.origins(e.value, ctx, depth, seen)
         return [("unknown", type(e).__name__)]
+
+    def _record_position(self, name: str) -> Optional[Tuple[str, int]]:
+        """(parameter, index) when `name` is bound by unpacking position `index` of the records of a parameter"""
+        if not hasattr(self, "_L"):
+            self._L = Locals(self.fn.node)
+        for kind, v, _ in self._L.defs.get(name, []):
+            if kind.endswith("-unpack") and isinstance(v, ast.Subscript) and isinstance(v.slice, ast.Constant) and isinstance(v.slice.value, int):
+                src = _record_source(v.value, self._L)
+                if isinstance(src, ast.Name) and self._L.is_param(src.id):
+                    return src.id, v.slice.value
+        return None
 
     def _explicit_taint_def(self, name: str) -> bool:
         """Is the name (also) assigned directly from a spec-text attribute somewhere in the function?"""
@@ -283,7 +383,7 @@ class FnTaint:
                     out.add("cr")
             if isinstance(n, ast.Call) and isinstance(n.func, ast.Attribute) and n.func.attr == "splitlines":
                 out.add("splitlines")
-            if isinstance(n, ast.Call) and "escape_docstring" in (dotted(n.func) or ""):
+            if isinstance(n, ast.Call) and (dotted(n.func) or "").split(".")[-1] in HELPER_ESCAPES:
                 out |= HELPER_ESCAPES.get((dotted(n.func) or "").split(".")[-1], set())
             if isinstance(n, ast.Name) and n.id not in seen and depth < 5:
                 defs = self.prov.defs.get(n.id, [])
@@ -362,6 +462,7 @@ def run(repo: Repo, rep: Report, tier: str) -> None:
     rep.require(any({"backslash", "triple-quote"} <= v for v in HELPER_ESCAPES.values()) or not HELPER_ESCAPES,
                 f"R15.2: no docstring escape helper applies both escapes: {HELPER_ESCAPES}") if False else None
     compute_tainted_params(repo, mods)
+    compute_tuple_taints(repo, mods)
     rep.count("R15.1:tainted_parameters", {k.split(":")[1]: sorted(v) for k, v in sorted(TAINTED_PARAMS.items())})
     central_doc_escape = _render_docstring_escapes(repo)
     rep.count("R15.2:render_docstring_escapes", sorted(central_doc_escape))
@@ -454,18 +555,40 @@ def run(repo: Repo, rep: Report, tier: str) -> None:
                 if isinstance(c.func, ast.Attribute) and c.func.attr == "splitlines":
                     recv = norm(c.func.value)
                     n_sl += 1
-                    sub = f"{mod.relpath}:{fn.qualname} `{norm(c)[:50]}`"
-                    docish = any(k in recv.lower() for k in ("doc", "desc", "summary", "comment")) or mn.endswith("documentation_writer")
-                    readish = "read_text" in recv or "stdout" in recv or "content" == recv
-                    if docish:
-                        rep.ok("R15.3", sub, "splits docstring/comment text: every piece is re-emitted inside the same docstring/comment", fn.loc(c))
-                    elif readish:
-                        rep.ok("R15.3", sub, "splits file/process output that is only compared or logged", fn.loc(c))
-                    elif fn.qualname in ("CodeWriter.write_block",) or "body_part" in recv:
-                        rep.ok("R15.3", sub, "existing block writer / emptiness probe (pinned-tree behaviour; holes inside are subject to R15.1)", fn.loc(c))
+                    sub = f"{mod.relpath}:{fn.qualname} splitlines() #{sum(1 for x in calls_in(fn.node) if isinstance(x.func, ast.Attribute) and x.func.attr == 'splitlines' and x.lineno <= c.lineno)}"
+                    FL = Locals(fn.node)
+                    src = FL.inline(c.func.value, stop=tuple(FL.params))
+                    calls = [(dotted(x.func) or (x.func.attr if isinstance(x.func, ast.Attribute) else "")) for x in ast.walk(src) if isinstance(x, ast.Call)]
+                    last = [d.split(".")[-1] for d in calls]
+                    in_code_writer = fn.cls is not None and fn.cls.name == "CodeWriter"
+                    # where does the text come from?
+                    code_src = None
+                    if any(l == "get_code" for l in last):
+                        code_src = "the result of get_code()"
+                    elif in_code_writer and fn.name != "write_block":
+                        code_src = "text handled by the code writer"
+                    elif any(l in ("render_dataclass", "render_enum", "render_alias", "render_class", "generate", "visit") for l in last):
+                        code_src = f"generated code returned by {[l for l in last if l in ('render_dataclass', 'render_enum', 'render_alias', 'render_class', 'generate', 'visit')][0]}()"
+                    elif any(l == "getvalue" for l in last) and not mn.endswith("documentation_writer"):
+                        code_src = "a code buffer (getvalue())"
+                    # a probe: the pieces are only counted / tested (any / all / len / sum), never re-emitted
+                    anc = parent(c)
+                    probe = False
+                    while anc is not None and not isinstance(anc, ast.stmt):
+                        if isinstance(anc, ast.Call) and dotted(anc.func) in ("any", "all", "len", "sum", "bool"):
+                            probe = True
+                        anc = parent(anc)
+                    if probe:
+                        rep.ok("R15.3", sub, f"`{recv[:40]}.splitlines()` is only probed (any/all/len): nothing of it is emitted", fn.loc(c))
+                        continue
+                    if code_src is None:
+                        why = ("docstring text produced by the documentation writer" if any(l in ("render_docstring",) for l in last) or mn.endswith("documentation_writer")
+                               else "file / process output that is only compared or logged" if any(l in ("read_text", "read") for l in last) or "stdout" in recv
+                               else "text handed in by the caller (docstring / comment / block assembly); its holes are subject to R15.1")
+                        rep.ok("R15.3", sub, f"`{recv[:40]}.splitlines()`: {why}", fn.loc(c))
                     else:
-                        rep.violation("R15.3", sub, f"{fn.fq}|resplit|{recv[:40]}",
-                                      f"generated code `{recv[:40]}` is re-split with str.splitlines(): it also splits at U+2028/U+2029/U+0085/FF/VT/FS-RS, which the "
+                        rep.violation("R15.3", sub, f"{fn.fq}|resplit",
+                                      f"generated code ({code_src}: `{recv[:40]}`) is re-split with str.splitlines(): it also splits at U+2028/U+2029/U+0085/FF/VT/FS-RS, which the "
                                       "Python tokenizer does not treat as line ends, so text inside a comment or string literal can become code", fn.loc(c))
     rep.count("R15.3:splitlines_sites", n_sl)
 
